@@ -356,4 +356,14 @@ def run(ctx: Ctx, repo: Repo, tier: str) -> None:
     ctx.note("R-C09.1-3 and R-C06.4 below are the stage rules of C09 and C06, run here as necessary conditions of C14")
     ctx.attempt(_c09.rule_query, ctx, repo)
     ctx.attempt(_c06.rule_class_stubs_kept_apart, ctx, repo)
+    # sets of traced types (and typing.Union) de-duplicate by the hashing and equality of type objects: those are the
+    # platform's, except for the ONE catalogued patch (TypedDict equality); any further patch of a foreign class - a
+    # __hash__ for TypedDict classes, say - changes which traces survive de-duplication, row order dependent (R-C03.6)
+    from . import c03 as _c03
+    ctx.attempt(_c03.rule_process_wide_setters, ctx, repo)
+    # every type goes through the same chain of rewriters, whatever was rewritten before it in the process (the chain object
+    # keeps the rewriters it was given and has no memory) - R-C07.4 and the rewriter histories of C07
+    from . import c07 as _c07
+    ctx.attempt(_c07.rule_chain, ctx, repo)
+    ctx.attempt(_c07.rule_no_memory, ctx, repo)
     ctx.settle()
